@@ -366,6 +366,7 @@ func runC08(c *Ctx) {
 	// a live label is never silently absent from a listing: only a descriptor that does not exist is skipped
 	checkSilentSkipOnlyNotExists(c, c.P.BodyOf(c.P.Func("pkg/core.getLabelAsync")), "listing.skip-only-not-exists", false)
 	checkNoRelabelAsMissing(c, "listing.no-relabel")
+	checkGenericErrorDiscipline(c, "pkg/core", "pkg/model")
 }
 
 func types_ExprString(e ast.Expr) string { return exprString(e) }
